@@ -54,6 +54,29 @@ Theorem coin_ok_gives : forall ev c b, coin_ok ev c = true -> c_body c = CBip b 
 Proof. exact CoinsOk.coin_ok_bip. Qed.
 Print Assumptions coin_ok_gives.
 
+(* what the keyword agreement gives for ANY address configuration (general) *)
+Theorem addr_conf_ok_gives : forall ev cv a, addr_conf_ok ev cv a = true ->
+  exists i, find_info (a_cls a) (e_infos ev) = Some i /\
+    addr_params_ok (a_params a) = true /\
+    let wallet := if refused ev (a_cls a) then caller_keys (a_cls a) else [] in
+    incl (ai_enc_req i) ((a_keys a ++ a_call_keys a) ++ wallet) /\
+    incl (a_keys a ++ a_call_keys a) (ai_enc_req i ++ ai_enc_opt i) /\
+    incl (ai_dec_req i) (a_keys a ++ wallet) /\
+    incl (a_keys a) (ai_dec_req i ++ ai_dec_opt i) /\
+    (refused ev (a_cls a) = false -> key_accepts (e_accepts ev) (ai_key i) cv = true).
+Proof. exact CoinsOk.addr_conf_ok_keys. Qed.
+Print Assumptions addr_conf_ok_gives.
+
+(* HRP / SS58 side conditions as propositions (premises of the Bech32 / SS58 round trips) *)
+Theorem hrp_ok_gives : forall h, hrp_ok h = true ->
+  h <> [] /\ (length h <= 83)%nat /\ Forall (fun c => 33 <= c <= 126 /\ ~ (65 <= c <= 90)) h.
+Proof. exact CoinsOk.hrp_ok_spec. Qed.
+Print Assumptions hrp_ok_gives.
+
+Theorem ss58_ok_gives : forall f, ss58_ok f = true -> f <= ss58_format_max /\ ~ In f ss58_reserved.
+Proof. exact CoinsOk.ss58_ok_spec. Qed.
+Print Assumptions ss58_ok_gives.
+
 (* premises satisfiable on a non-trivial value: Bitcoin under BIP-84 *)
 Example coin_ok_gives_nonvacuous :
   exists c b, find_coin FBip84 (str "BITCOIN") all_coins = Some c /\ c_body c = CBip b /\
